@@ -617,50 +617,67 @@ func runOne(scnPath, dir string, port int) int {
 	for _, st := range sc.Steps {
 		rn.step(st)
 	}
-	// End: once the stop/kill escalation bound has passed (or the group is already empty), probe.
+	// End.  First let what is in flight come to rest (answers to delivered requests, the reaper of a
+	// child that was told to exit), then probe: the probe and the End line are one atomic record, and
+	// the wait for an empty group (stop/kill escalation bound) is decided on what has been recorded
+	// up to that very moment - so the End line is consistent with the lines before it.
+	rn.rec.await("answers", 1500*time.Millisecond, func(v *view) bool {
+		want, got := 0, 0
+		for r, n := range v.nReq {
+			if r != "Kill" {
+				want += n
+			}
+		}
+		for _, n := range v.nResp {
+			got += n
+		}
+		return got >= want
+	})
+	rn.rec.mu.Lock()
+	expectReap := rn.rec.v.started && (rn.rec.v.released || sc.Beh == "crash") && sc.Kind != "ctl"
+	rn.rec.mu.Unlock()
+	if expectReap {
+		rn.rec.await("reaper", 3*time.Second, func(v *view) bool { return v.reapSeen })
+	}
 	bound := 1500 * time.Millisecond
 	if sc.Kind == "ctl" {
 		bound = 13 * time.Second // GetState 5 s + DONE 1 s + TERM 2 s + INT 3 s + 2 s
 	}
-	rn.rec.mu.Lock()
-	sk, last := rn.rec.v.stopOrKill, rn.rec.v.lastStop
-	if !sk && sc.Kind == "ctl" && rn.rec.v.nStatus["TASK_FAILED"] > 0 {
-		// a failed start-up runs the TERM/INT/KILL escalation on its own
-		sk, last = true, time.Now()
-	}
-	rn.rec.mu.Unlock()
-	procs := taggedProcs(rn.tag, nil)
-	if sk {
-		dl := last.Add(bound)
-		for len(procs) > 0 && time.Now().Before(dl) {
-			time.Sleep(20 * time.Millisecond)
-			procs = taggedProcs(rn.tag, nil)
-		}
-		if sc.Kind == "ctl" { // let the Kill goroutine finish its bookkeeping
-			dl2 := time.Now().Add(4 * time.Second)
-			for rn.vx.IsActive(rn.ti.TaskID) && time.Now().Before(dl2) {
-				time.Sleep(10 * time.Millisecond)
+	var failedAt time.Time
+	for {
+		rn.rec.mu.Lock()
+		sk, last := rn.rec.v.stopOrKill, rn.rec.v.lastStop
+		if !sk && sc.Kind == "ctl" && rn.rec.v.nStatus["TASK_FAILED"] > 0 {
+			// a failed start-up runs the TERM/INT/KILL escalation on its own
+			if failedAt.IsZero() {
+				failedAt = time.Now()
 			}
+			sk, last = true, failedAt
 		}
-	}
-	time.Sleep(30 * time.Millisecond) // let already-queued statuses/messages be recorded
-	groups := map[int]bool{}
-	comms := make([]string, 0)
-	for _, p := range procs {
-		groups[p.Pgid] = groupAlive(p.Pgid)
-		comms = append(comms, p.Comm)
-	}
-	ngroups := 0
-	for _, alive := range groups {
-		if alive {
-			ngroups++
+		procs := taggedProcs(rn.tag, nil)
+		busy := sk && sc.Kind == "ctl" && rn.vx.IsActive(rn.ti.TaskID) // the Kill goroutine is still at it
+		if !sk || time.Now().After(last.Add(bound)) || (len(procs) == 0 && !busy) {
+			groups := map[int]bool{}
+			comms := make([]string, 0)
+			for _, p := range procs {
+				groups[p.Pgid] = groupAlive(p.Pgid)
+				comms = append(comms, p.Comm)
+			}
+			ngroups := 0
+			for _, alive := range groups {
+				if alive {
+					ngroups++
+				}
+			}
+			rn.rec.emitLocked("End", map[string]interface{}{"alive": len(procs), "groups": ngroups, "comms": comms,
+				"active": rn.vx.IsActive(rn.ti.TaskID), "waited": sk})
+			rn.rec.ended = true
+			rn.rec.mu.Unlock()
+			break
 		}
+		rn.rec.mu.Unlock()
+		time.Sleep(20 * time.Millisecond)
 	}
-	rn.rec.emit("End", map[string]interface{}{"alive": len(procs), "groups": ngroups, "comms": comms,
-		"active": rn.vx.IsActive(rn.ti.TaskID)}, nil)
-	rn.rec.mu.Lock()
-	rn.rec.ended = true
-	rn.rec.mu.Unlock()
 	killTagged(rn.tag)
 	return 0
 }
